@@ -1,3 +1,3 @@
-(* _client.py :: ncrypt_unprotect_secret :: ('callarg', '_sync_get_key', 0, 'password') :  password *)
+(* _client.py :: ncrypt_unprotect_secret :: shape kernel :  _sync_get_key(... password: password  [= password] ...) *)
 Definition k_onl_unprot_kw_password (password : list Z) : list Z :=
   password.
